@@ -192,7 +192,7 @@ Definition setup_like (e : env) (D : alist) (st : fs) : plan :=
       match read_cmd (st Cmd) with                  (* msetup.py:233: user_defined_options = file + command line *)
       | RBad => (pre, PyErr)
       | RAbsent => (pre ++ body e D D st, Done)
-      | RRec r => (pre ++ body e (r ++ D) D st, Done)          (* msetup.py:301 write_cmd_line_file(self.options) *)
+      | RRec r => (pre ++ body e (r ++ D) (r ++ D) st, Done)   (* msetup.py:298-302: the recorded options stay recorded *)
       end
   | _ =>
       (* unreadable coredata: universal.py:2651-2663 -> MesonException; environment.py:138-147 *)
